@@ -56,7 +56,7 @@ prop("C03",
 prop("C04",
      level_text="Whole-image comparison with specification-derived reference encoders (kinds.rs / fixed.rs) for every table header form and every entry kind, every scalar symbolic over its full type, every enum over all variants, optional parts present and absent. " + K,
      level_note=TRUST + " Reference layouts: ACPI 6.5/6.6, CXL 3.0, TCG ACPI, SPCR r4, RISC-V RHCT/RQSC, VIOT; RIMT per the crate's golden tests. Not demanded: header Revision bytes, FACS version, FADT minor version, TCPA spec-revision byte order.",
-     bounds="fixed shapes (see C01), all values", outside="shapes beyond the enumerated ones", jobs=14, timeout=900, mir=None)
+     bounds="fixed shapes (see C01), all values; plus 38 concrete twins (fx::q_fx_*: every entry kind twice with identical all-zero / all-one entries, OEM fields symbolic, whole image compared) for changes that merge, skip or reorder entries by value", outside="shapes beyond the enumerated ones; value-dependent entry handling for entry values other than all-zero / all-one", jobs=14, timeout=900, mir=None)
 prop("C05",
      level_text="Handles are opaque, so they are observed through the reference fields of later nodes built from them; every enumerated sequence uses every earlier handle and the harness asserts field == specification offset of the target node and target type code, after every add. " + K,
      level_note=TRUST,
@@ -68,9 +68,9 @@ prop("C06",
      bounds="all exported constructors; 0..=3 children of 0..=3 bytes; 1- and 2-segment names, rooted and not; names through the Path hook",
      outside="bodies at the 63/64 boundary for ten constructors only; the 4095/4096 boundary is not materialised for C06 (tried: symbolic execution > 2400 s; the encoder itself is decided for every length by C07); 2^20 bodies are not materialised", jobs=14, timeout=900, mir=None)
 prop("C07",
-     level_text="The private encoder is driven through a pass-through hook with the length itself symbolic (one query covers all 2^28 lengths x both forms); decoded value, lead-byte format and minimality asserted; Field/Named/Reserved tie it to the public API. Engine M re-derives the same statement from rustc's MIR (dev and release) with z3, cross-checked by cvc5. " + K,
+     level_text="The private encoder is driven through a pass-through hook with the length itself symbolic (one query covers all 2^28 lengths x both forms); decoded value, lead-byte format and minimality asserted; Field/Named/Reserved and one small-body harness per length-prefixed object kind tie it to the public API. Engine M re-derives the same statement from rustc's MIR (dev and release) with z3, cross-checked by cvc5. " + K,
      level_note=TRUST + " Engine M trusts the MIR text dump and my 400-line translator, validated on the crate's own test vectors.",
-     bounds="all len with total < 2^28, both forms", outside="lengths >= 2^28 (C18)", jobs=8, timeout=600, mir=True,
+     bounds="all len with total < 2^28, both forms; call sites: 25 harnesses over every length-prefixed object kind (Scope, Device, Method, PowerResource, If, Else, While, Package, PackageBuilder, VarPackage, Buffer term, BufferData 0..=3 bytes, ResourceTemplate) with 0..=2 symbolic-content children, total <= 63", outside="lengths >= 2^28 (C18); call-site bodies beyond 63 bytes are C06 (62/63 boundary) and C10/C15 (to 260 bytes)", jobs=8, timeout=600, mir=True,
      technique="bounded model checking (Kani/CBMC) + MIR->SMT-LIB2 bit-vector encoding decided by z3/cvc5")
 prop("C08",
      level_text="One query per integer type covers the whole type: emitted bytes == narrowest reference encoding and decode back; cross-type equality; BufferData size prefix. Engine M: all paths of the five to_aml_bytes impls from MIR, dev and release. " + K,
